@@ -297,8 +297,33 @@ def _devs_cases():
             "EventList.__len__": (gen_el, lambda a: len(elist(a))), "EventList.is_empty": (gen_el, lambda a: elist(a).is_empty())}
 
 
+# ------------------------------------------------------------------ C05: model.py
+def _steps_cases():
+    core.import_mesa()
+    import mesa
+
+    seen = []
+
+    class M(mesa.Model):
+        def step(self, *args, **kwargs):
+            seen.append(self.steps)
+
+    def call(a):
+        m = M()
+        m.steps = a["self"]["steps"]
+        del seen[:]
+        mesa.Model._wrapped_step(m, *a["args"], **a["kwargs"])
+        return (list(seen), m.steps)
+
+    def gen(rng):
+        return {"self": {"steps": rng.choice([0, 0, 1, 2, 7, 1000, rng.randrange(10**6)])},
+                "args": [rng.randrange(5) for _ in range(rng.randrange(3))], "kwargs": {"k": 1} if rng.random() < 0.3 else {}}
+
+    return {"Model._wrapped_step": (gen, call)}
+
+
 RECS = {r.name: r for g in XR.GROUPS.values() for r in g["recs"]}
-SUITES = {"Cells": _grid_cases, "Legacy": _legacy_cases, "Devs": _devs_cases}
+SUITES = {"Cells": _grid_cases, "Legacy": _legacy_cases, "Devs": _devs_cases, "Steps": _steps_cases}
 
 
 # ------------------------------------------------------------------ runner
